@@ -97,12 +97,7 @@ def showSection (s : Xref.Section) : String :=
 def xrefsOf (st : St) : List Xref.Section := (st.doc.getD []).map (·.1)
 
 def openDoc (st : St) (bufsiz : Nat) : Except Err (List (Xref.Section × Trailer)) :=
-  match findXref bufsiz st.data with
-  | .error e => .error e
-  | .ok pos =>
-    match readXrefFrom ⟨st.data, st.secs, st.objs⟩ (st.secs.length + 2) pos ([], []) with
-    | .ok r => .ok r.1
-    | .error e => .error e
+  openPhys ⟨st.data, st.secs, st.objs⟩ bufsiz
 
 def parseTEntry (s : String) : Option TEntry :=
   match s.splitOn "/" with
